@@ -126,6 +126,7 @@ class StateMonitor(Monitor):
     def __init__(self, plan):
         self.plan = plan
         self.final_seen = {}  # id(job) -> (state name, step)
+        self.reattached_seen = set()
 
     def on_quiescent(self, eng, pr):
         for key, objs in eng.jobs.items():
@@ -133,6 +134,12 @@ class StateMonitor(Monitor):
                 st = o.state
                 if st is None:
                     continue
+                rec = getattr(o, "_xv_rec", None)
+                if rec is not None and rec.get("adopted") is not None and id(o) not in self.reattached_seen and getattr(o, "_future", None) is not None and not o._future.done():
+                    # coverage: a dependency failed while the scheduler was still waiting for the re-attached process of a dependent
+                    if any(getattr(u, "state", None) is not None and u.state.name == "ERROR" for _, u in rec.get("upstream_objs", [])):
+                        self.reattached_seen.add(id(o))
+                        eng.events.append(("dependency-failed-under-reattached-job", key, eng.step))
                 prev = self.final_seen.get(id(o))
                 if prev is not None and prev[0] != st.name:
                     V(eng, ["C06"], "final-state-changed", f"job {key} was {prev[0]} at step {prev[1]} and is {st.name} at step {eng.step}")
@@ -155,6 +162,11 @@ class StateMonitor(Monitor):
         memo[id(obj)] = ("?", None)
         if rec.get("marker_at_submit"):
             res = ("DONE", 0)
+        elif rec.get("adopted") is not None:
+            # a process of an earlier run that is still alive was re-attached: the property ties the final state to the
+            # exit status of the job's process, whatever happens to its dependencies while it runs (seen in the
+            # thorough tier: the dependency was cleaned, ran again and failed while the re-attached dependent ran)
+            res = ("DONE" if rec["adopted"].code == 0 else "ERROR", 0)
         else:
             upfail = False
             for ukey, uobj in rec.get("upstream_objs", []):
